@@ -26,7 +26,7 @@ ASSUMPTIONS = [
     "values are chosen so that they cannot be mistaken for items (non-integral); items-only headers are used only where item sets differ",
 ]
 
-DIMSETS = [["t"], ["r"], ["t", "r"], ["r", "t"], ["t", "r", "m"], ["m", "t", "s"], ["s", "r"], ["T", "m"], ["y", "r", "t"], ["g", "t"], ["m", "r"], ["Y"], ["Y", "r"]]
+DIMSETS = [["t"], ["r"], ["t", "r"], ["r", "t"], ["t", "r", "m"], ["m", "t", "s"], ["s", "r"], ["T", "m"], ["y", "r", "t"], ["g", "t"], ["m", "r"], ["Y"], ["Y", "r"], ["N", "r"], ["t", "N"]]
 
 
 def values_for(n, k):
